@@ -15,6 +15,7 @@ Floating-point estimates and bounds (`hll_bounds_order`, C06) are executed and c
 import DSProofs.Lemmas.HllConvert
 import DSProofs.Lemmas.HllArraysRun
 import DSProofs.Lemmas.HllKxq
+import DSProofs.Lemmas.HllArray6b
 import DSModel.Hll.GenParams
 namespace DS.Hll
 
@@ -191,6 +192,17 @@ theorem hll4_stream_agrees (p : Params) (ht : p.auxToken = 15) (lgK : Nat) (hk :
   have r := Sim4.foldl (ν := ν) ht cs (Inv4.new p lgK hk) (HInv.newHll (ν := ν) p lgK .h4 sf) (Sim4.init p lgK sf)
   exact ⟨r.1.notbad, r.2.regs.symm, r.2.curMin.symm, r.2.num.symm⟩
 
+/-- HLL_6 (6-bit fields packed little-endian over byte pairs, `getSlot` / `putSlot` through a 16-bit window): under the
+representation invariant `Inv6` (array size, bytes < 256; established by the constructor and kept by every update) one coupon
+update is exactly the abstract `slot := max(slot, value)` — writing one 6-bit field changes no other field — and `numAtCurMin`
+keeps counting the zero registers. The value must fit in 6 bits, as every coupon value (≤ 63) does. -/
+theorem hll6_refines (p : Params) (lgK : Nat) (hk : 2 ≤ lgK) :
+    Inv6 (H6.new lgK) ∧
+    ∀ (h : H6) (c : Nat), Inv6 h → cValue p c < 64 →
+      Inv6 (h.update p c) ∧ (h.update p c).lgK = h.lgK ∧ (h.update p c).regs = maxUpdate p h.lgK h.regs c ∧
+      (h.numAtCurMin = h.regs.count 0 → (h.update p c).numAtCurMin = (h.update p c).regs.count 0) :=
+  ⟨Inv6.new lgK hk, fun _ c hi hv => h6_refines p hi c hv⟩
+
 /-- HLL_8: the byte array is the register array; an update is the abstract `slot := max(slot, value)` and `numAtCurMin`
 keeps counting the zero registers. -/
 theorem hll8_refines (p : Params) (h : H8) (c : Nat) (hsz : h.bytes.size = 2^h.lgK) :
@@ -248,6 +260,10 @@ def exH4 : H4 := ((List.range 16).map (fun i => cPair exP i (1 + i % 3)) ++ [cPa
 example : (letI := exactNum; ((exStream.foldl (hllUpdate exP) (newHll 4 .h6 true : St Int)).kxq0 +
     (exStream.foldl (hllUpdate exP) (newHll 4 .h6 true : St Int)).kxq1)) = 7 * 2^63 + 2^58 + 4 * 2^62 + 2^46 + 2^60 + 2^61 + 2^59 := by
   decide +kernel
+/-- L2 HLL_6: fields straddling byte boundaries -/
+def exH6 : H6 := [cPair exP 1 63, cPair exP 2 42, cPair exP 3 21, cPair exP 1 7].foldl (H6.update exP) (H6.new 4)
+example : get6 exH6.bytes 1 = 63 ∧ get6 exH6.bytes 2 = 42 ∧ get6 exH6.bytes 3 = 21 ∧ get6 exH6.bytes 0 = 0 ∧
+    exH6.numAtCurMin = 13 := by decide +kernel
 example : exP.auxToken = 15 ∧ exH4.curMin = 1 ∧ exH4.bad = false ∧ exH4.ents.length = 2 ∧ exH4.reg exP 7 = 17 := by decide +kernel
 
 end DS.Hll
